@@ -35,6 +35,16 @@ def _short(e):
     return '%s%s' % (e['op'], (' ' + sql[:60]) if sql else '')
 
 
+def _flat_ops(ops):
+    out = []
+    for o in ops:
+        if isinstance(o, str):
+            out.append(o)
+        else:
+            out.extend(_flat_ops(o[1]))
+    return out
+
+
 def flatten_sqlite(obs):
     """-> (labels: pid->label, processes: list of (label, records, events))"""
     labels = {obs['pids']['P']: 'P'}
@@ -80,19 +90,31 @@ def judge_sqlite(case, obs):
     if state == 'thread_open_write' and (case['order'] != 'child_first' or case['parent_after'] not in ([], ['read'])):
         raise Unjudgeable('precondition: thread_open_write histories only have child_first order and a read-only parent script')
 
+    gen_ops = ('gen_next', 'gen_write')
+    if state != 'gen_suspended':
+        flat = [o for o in _flat_ops(case['child']) + list(case['parent_after'])]
+        if any(o in gen_ops for o in flat):
+            raise Unjudgeable('precondition: generator steps only exist in the gen_suspended state')
+    elif 'disconnect' in case['parent_after']:
+        raise Unjudgeable('precondition: the parent must not disconnect() while its own generator session is suspended')
+
     findings = []
     labels, procs, dead = flatten_sqlite(obs)
     if dead is not None:
         kind, rep = dead
         findings.append(('deadlock', '[deadlock] a forked process (single thread) blocked forever in SQLiteProvider.acquire_lock: %s'
                          % ((rep.get('stack') or [])[:5],)))
-        return findings, {'foreign_noop_calls': 0, 'child_statements': 0}
+        return findings, {'foreign_noop_calls': 0, 'child_statements': 0, 'faults': 0}
 
     # ---- connection the parent's open session held at the fork point -----------------------------------------
     session_conns = set()
+    gen_conns = set()
     p_events = obs['events']
     in_open = False
     for rec in obs['setup']:
+        if rec['op'] == 'gen_start':
+            for e in p_events[rec['mark']:rec['end']]:
+                gen_conns.add(e['conn'])
         if rec['op'] == 'open':
             in_open = True
         elif in_open:
@@ -115,7 +137,8 @@ def judge_sqlite(case, obs):
         # session connection, or a connection of a child that itself lives inside the (never ending) inherited session
         inherited = ((e['conn'] in session_conns and state in OPEN_WITH_CONNECTION)
                      or (state in OPEN_STATES and labels.get(e['creator']) != 'P'))
-        tag = '[inherited-session]' if inherited else '[pooled]'
+        suspended = state == 'gen_suspended' and e['conn'] in gen_conns
+        tag = '[inherited-session]' if inherited else '[suspended-generator]' if suspended else '[pooled]'
         what = {'commit': 'COMMIT', 'rollback': 'ROLLBACK', 'close': 'close() of an open transaction'}.get(e['op'], _short(e))
         findings.append(('foreign-statement' + ('-inherited' if inherited else '-pooled'),
                          '%s process %s issued %s on connection %s created by process %s'
@@ -129,6 +152,7 @@ def judge_sqlite(case, obs):
     model = {'committed': committed, 'parent_open': state in OPEN_STATES or state == 'thread_open_write',
              'pending': ['pu'] if state in ('open_write', 'open_dirty') else []}
     child_in_inherited = state in OPEN_STATES
+    stats_extra = {'faults': 0}
     lock_at_fork = state in ('open_write', 'thread_open_write')
 
     def child_ops(records, who, fresh):
@@ -145,6 +169,22 @@ def judge_sqlite(case, obs):
             # POSIX locks per process and inode, so the inherited (never used, never closed) connection copy makes every
             # new connection of the forked process see the file as reserved (a SQLite fork hazard, not a pony statement)
             may_lock = model['parent_open'] or lock_at_fork or (child_in_inherited and who != 'C')
+            if op == 'fail_connect':
+                stats_extra['faults'] += 1 if r.get('fired') else 0
+                if r.get('fired') and not r['ok'] and 'injected' in (r['exc'].get('msg') or ''):
+                    continue          # the injected connection failure surfaced: expected
+                op = 'read'           # nothing had to be opened (or pony recovered): judged as a plain read
+            if op in gen_ops:
+                if not r['ok']:
+                    findings.append(('child-op-failed', '%s could not resume the generator session suspended at the fork: %r'
+                                     % (who, r['exc'])))
+                else:
+                    if r['result'] != sorted(model['committed']):
+                        findings.append(('visibility', '%s read %r in the resumed generator session (after its commit), '
+                                         'committed so far %r' % (who, r['result'], sorted(model['committed']))))
+                    if op == 'gen_write':
+                        model['committed'].append(r['label'])
+                continue
             if op == 'read':
                 if not r['ok']:
                     # a process that lives inside the inherited (never ending) db_session carries session state across
@@ -195,6 +235,17 @@ def judge_sqlite(case, obs):
     def parent_ops(records):
         for r in records:
             op = r['op']
+            if op in gen_ops:
+                if not r['ok']:
+                    findings.append(('parent-broken', 'parent could not resume its own suspended generator session after the '
+                                     'fork: %r' % (r['exc'],)))
+                else:
+                    if r['result'] != sorted(model['committed']):
+                        findings.append(('visibility', 'parent read %r in its resumed generator session, committed so far %r'
+                                         % (r['result'], sorted(model['committed']))))
+                    if op == 'gen_write':
+                        model['committed'].append(r['label'])
+                continue
             if op in ('read_in', 'write_flush'):
                 if not r['ok']:
                     findings.append(('parent-broken', 'parent could not continue its open session after the fork: %s failed: %r'
@@ -263,7 +314,7 @@ def judge_sqlite(case, obs):
         if obs.get('file_names') != sorted(model['committed']):
             findings.append(('visibility', 'database file finally holds %r, committed according to the reports %r'
                              % (obs.get('file_names'), sorted(model['committed']))))
-    return findings, {'foreign_noop_calls': foreign_calls,
+    return findings, {'foreign_noop_calls': foreign_calls, 'faults': stats_extra['faults'],
                       'child_statements': sum(1 for who, e in all_events if who != 'P' and e['op'] in STATEMENT_OPS)}
 
 
@@ -279,7 +330,7 @@ def judge_pool(case, obs):
         raise HarnessBug('P crashed: %s' % obs['crash'])
     findings = []
     labels = {obs['pids']['P']: 'P'}
-    stats = {'forks': 0, 'child_connects': 0, 'inherited_forks': 0}
+    stats = {'forks': 0, 'child_connects': 0, 'inherited_forks': 0, 'faults': 0}
 
     def walk(rep, who, pool_objs):
         # pool_objs: spool idents created per pid (oracle)
@@ -287,6 +338,9 @@ def judge_pool(case, obs):
             if r.get('skipped'):
                 continue
             if not r['ok']:
+                if r['op'] == 'connect' and r.get('injected'):
+                    stats['faults'] += 1          # the injected driver failure surfaced from connect(): expected
+                    continue
                 findings.append(('pool-op-failed', '%s pool.%s() raised %r' % (who, r['op'], r.get('exc'))))
                 continue
             if r['op'] == 'connect':
